@@ -135,10 +135,8 @@ func (kt *Keytab) AddEntry(principalName, realm, password string, ts time.Time, 
 
 	// Populate the keytab entry principal
 	ktep := newPrincipal()
+	// As after parsing, NumComponents does not count the realm, whatever the keytab version
 	ktep.NumComponents = int16(len(princ.NameString))
-	if kt.version == 1 {
-		ktep.NumComponents += 1
-	}
 
 	ktep.Realm = realm
 	ktep.Components = princ.NameString
@@ -391,7 +389,14 @@ func (p principal) marshal(v int) ([]byte, error) {
 	if v == 1 && isNativeEndianLittle() {
 		endian = binary.LittleEndian
 	}
-	endian.PutUint16(b[0:], uint16(p.NumComponents))
+	// The count is derived from the components held, not from NumComponents: parsing a version 1
+	// keytab has already taken the realm out of NumComponents, so writing it back unchanged gave
+	// a count that was one too small. In version 1 the count includes the realm.
+	nc := len(p.Components)
+	if v == 1 {
+		nc++
+	}
+	endian.PutUint16(b[0:], uint16(nc))
 	realm, err := marshalString(p.Realm, v)
 	if err != nil {
 		return b, err
